@@ -62,7 +62,7 @@ def spine(e):
                 return items, e
             e = e[2][0]
         elif e[0] == "field":
-            nm = e[3][0] if len(e) > 3 and e[3] else str(e[1])
+            nm = mir.field_name(e) or str(e[1])
             items.append(("field", nm, e))
             e = e[2]
         elif e[0] == "downcast":
